@@ -6,8 +6,10 @@ mod kit;
 mod oracles;
 mod bfs;
 mod props_paths;
+mod props_bounds;
 mod props_prm;
 mod props_space;
+mod props_uniform;
 mod lattice;
 mod rngseam;
 mod props_tree;
@@ -41,6 +43,9 @@ fn main() {
                 "C15" | "C16" | "C17" => props_tree::run(prop, tier),
                 "C18" => props_prm::run(tier),
                 "C09" | "C10" | "C13" => props_space::run(prop, tier),
+                "C11" => props_bounds::run_c11(tier),
+                "C12" => props_bounds::run_c12(tier),
+                "C14" => props_uniform::run(tier),
                 _ => usage(),
             }
         }
